@@ -312,6 +312,7 @@ Plan generate_plan(const std::string& prop, unsigned long long vseed, unsigned l
                 if (p.ops[(size_t)src].entry == 1 || p.ops[(size_t)src].entry == 2 || p.ops[(size_t)src].entry == 4) p.ops[(size_t)src].entry = 3;
                 Op o; o.kind = OP_PARSE; o.a = slot++; o.c = src; o.entry = r.chance(500) ? 3 : 0; o.text = p.ops[(size_t)src].text;
                 o.window = r.range(1, (int)o.text.size() - (r.chance(300) ? 0 : 1));
+                if (r.chance(350)) { o.placement = 4; o.trail = r.range(1, std::max(1, o.window - 1)); o.entry = 3; }   // a later start inside the same buffer
                 p.ops.push_back(o);
             }
         }
